@@ -196,9 +196,7 @@ func (n *neighbour) NeedsTable(ctx context.Context, uri string) (bool, error) {
 func (e *multiEnv) deployAssembly(n int, from *jobCkpt, reuseIDs bool) {
 	for _, o := range e.ops {
 		o.node.Kill()
-		if lib.Known("old-instance-gc") {
-			e.pinned = append(e.pinned, o.node)
-		}
+		e.pinned = append(e.pinned, o.node) // a dead process: none of its cleanups ever runs
 	}
 	lib.GCSettle()
 	e.gen++
